@@ -70,16 +70,16 @@ Proof. vm_compute. auto. Qed.
 (* ======================================================================
    "... and the pulled stream is published under the requested path":
    media.GetOrCreate over (registry of live streams, route table, list of pull
-   factories).  Guard [req_stable]: CanonicalPath(request) is a fixed point of
-   CanonicalPath (false only for a blank-edged segment in front of "..";
-   known finding, witness below).
+   factories).  No guard on the request: CanonicalPath is idempotent since the
+   repair 1c2de2b (C17_request_always_stable; the former counterexample is kept
+   as C17_publish_unstable_fixed).
    ====================================================================== *)
 
 (* the code (registry look-up on the canonical path, Match on the canonicalised
    path, first factory that Can, Create(r.Pattern, r.URL)) equals the
    specification written from the property text *)
 Theorem C17_get_or_create_is_spec : forall g t fs p,
-  uniq_keys t = true -> urls_nonempty t = true -> req_stable p = true ->
+  uniq_keys t = true -> urls_nonempty t = true ->
   get_or_create g t fs p = spec_goc g t fs p.
 Proof. exact goc_is_spec. Qed.
 Print Assumptions C17_get_or_create_is_spec.
@@ -96,7 +96,7 @@ Print Assumptions C17_registered_stream_is_returned.
    pulled from the route URL / the one-slash join, by the first factory that accepts that URL
    (keep = None: that factory's Create failed, nothing is returned and no other factory is tried) *)
 Theorem C17_created_under_requested_path : forall g t fs p lp url i keep,
-  uniq_keys t = true -> urls_nonempty t = true -> req_stable p = true ->
+  uniq_keys t = true -> urls_nonempty t = true ->
   created_of (get_or_create g t fs p) = Some (lp, url, i, keep) ->
   reg_get g (canonical_path p) = None /\
   lp = canonical_path p /\ ends_with SLASH lp = false /\
@@ -137,7 +137,7 @@ Print Assumptions C17_table_is_map_of_route_ops.
 (* (e) publish path = lookup path: after a request has created (and so registered) a stream, a request
    for the same canonical path in any spelling returns that stream and creates nothing *)
 Theorem C17_created_stream_is_found_again : forall url_ok fs st p q lp url i keep st1 sid seen,
-  pinv st = true -> req_stable p = true ->
+  pinv st = true ->
   pstep url_ok fs st (PReq p) = (st1, POReq (GCreated lp url i keep) sid seen) ->
   canonical_path q = canonical_path p ->
   sid = Some (ps_next st) /\
@@ -154,7 +154,7 @@ Proof. exact published_then_found. Qed.
 Print Assumptions C17_published_stream_is_found.
 
 (* the decidable oracle applied to the implementation's answers accepts the model on every
-   well-formed history (route URLs non-empty, requests canon-stable), for every factory list *)
+   well-formed history (route URLs non-empty), for every factory list *)
 Theorem C17_publish_model_passes : forall url_ok fs ops st,
   forallb (pop_wf url_ok) ops = true -> pinv st = true ->
   ok_phist url_ok fs st ops (snd (prun url_ok fs st ops)) = true.
@@ -167,6 +167,11 @@ Theorem C17_publish_oracle_sound : forall url_ok fs st p got sid seen ops outs,
   got = spec_goc (ps_reg st) (ps_tbl st) fs p.
 Proof. exact oracle_sound_request. Qed.
 Print Assumptions C17_publish_oracle_sound.
+
+(* the registry key (canonicalised once) and the route path (canonicalised twice) agree for every request *)
+Theorem C17_request_always_stable : forall p, req_stable p = true.
+Proof. exact req_stable_all. Qed.
+Print Assumptions C17_request_always_stable.
 
 (* after the fix "CanonicalPath is idempotent": the former witness "/a /b/.." (looked up under "/a ",
    published under "/a", pulled a second time) is stable and the second request finds the first's stream *)
